@@ -101,7 +101,19 @@ func place(f *nodeFree, r PodReq) bool {
 	if f.cpu < r.MilliCPU || f.mem < r.Memory || f.pods < 1 {
 		return false
 	}
-	if r.Sharing() {
+	if r.Sharing() && r.NumDev > 1 {
+		// a multi-device fraction: demanded only when the node has that many ENTIRELY idle GPUs (the
+		// scheduler may also mix in partly used devices; not claiming that keeps the reference conservative)
+		// and a pod slot per reservation pod
+		if f.gpus < r.NumDev || f.pods < 1+r.NumDev {
+			return false
+		}
+		for i := int64(0); i < r.NumDev; i++ {
+			f.gpus--
+			f.devFree[fmt.Sprintf("new-%d", len(f.devFree))] = 1 - r.Fraction
+			f.pods--
+		}
+	} else if r.Sharing() {
 		if f.pods < 2 { // a new device needs a slot for its reservation pod too: stay conservative
 			return false
 		}
@@ -156,7 +168,7 @@ func fitsAll(nodes []*nodeFree, reqs []PodReq) bool {
 }
 
 func modelled(r PodReq) bool {
-	if len(r.Extended) > 0 || r.GPUMem > 0 || r.NumDev > 1 {
+	if len(r.Extended) > 0 || r.GPUMem > 0 {
 		return false
 	}
 	return true
